@@ -515,6 +515,30 @@ pub fn run(c: &mut Ctx) {
         let obs = obs_of(&z);
         c.op(&format!("zn.obs {} {off}", enc_n(&u)), &join(&obs));
         check_value(c, &mut fl, &mut tl, &u, off, &obs);
+        // formatting acts on the wall-clock reading as well (also in the one-day headroom): Display,
+        // Debug, format() and to_rfc3339 must not panic and must show the fields the accessors return
+        {
+            use chrono::{Datelike, Timelike};
+            let texts = guard(|| (z.to_string(), format!("{:?}", z), z.format("%Y-%m-%d %H:%M:%S").to_string(), z.to_rfc3339()));
+            match texts {
+                Err(()) => fl.hit(c, "formatting a zone-aware value panicked", &format!("zn.obs {} {off}", enc_n(&u))),
+                Ok((disp, dbg, f, r3)) => {
+                    let y = z.year();
+                    let ys = if (0..=9999).contains(&y) { format!("{:04}", y) } else { format!("{:+05}", y) };
+                    let sec = z.second() + z.nanosecond() / 1_000_000_000;
+                    let want_d = format!("{}-{:02}-{:02}", ys, z.month(), z.day());
+                    let want_t = format!("{:02}:{:02}:{:02}", z.hour(), z.minute(), sec);
+                    let ok = disp.starts_with(&format!("{} {}", want_d, want_t))
+                        && dbg.starts_with(&format!("{}T{}", want_d, want_t))
+                        && r3.starts_with(&format!("{}T{}", want_d, want_t))
+                        && f == format!("{} {}", want_d, want_t);
+                    if !ok {
+                        fl.hit(c, "formatted text does not show the wall-clock fields", &format!("zn.obs {} {off}: {disp} | {dbg} | {f} | {r3}", enc_n(&u)));
+                    }
+                    tl.add("formatting vs accessors");
+                }
+            }
+        }
         if k < 3 {
             c.sample(&format!("zn.obs {} {off} -> {}", enc_n(&u), join(&obs)));
         }
